@@ -28,9 +28,7 @@ SPEC = dict(
     property='C17',
     groups=[
         dict(name='msg', harness='h.cpp', tus=TUS, models=MODELS, cxxdefs={'_GLIBCXX_RANGES': 1},
-             instances=FIELD_INSTANCES + COMPOSITE + KF_INSTANCES),
-        dict(name='dbg', harness='h.cpp', tus=TUS, models=MODELS, cxxdefs={'_GLIBCXX_RANGES': 1, 'C17_DEBUG': 1},
-             instances=[I('dbg%d' % k, 'h_dbg%d' % k, tiers=()) for k in (1, 2, 3, 4)]),
+             instances=COMPOSITE + FIELD_INSTANCES + KF_INSTANCES),
     ],
     bounds=[], assumptions=[], outside=[],
 )
